@@ -234,6 +234,9 @@ def run_C15(tier, seed, replay=None, procs=16):
     cases = []
     for p in ps:
         my = grid if full else rng.sample(grid, 36)
+        if not full:
+            # the default switches are always part of the quick sample, for both optimisers
+            my = [g for g in grid if g[2:] == (False, False, False, None) and g[1] in ("pareto", "weight")] + my
         if full:
             # the full grid on every problem is large: all logics with the default switches, all switches with 3 logics
             my = [g for g in grid if (g[2:5] == (False, False, False)) or g[5] in (None, "QF_LIA", "QF_UFLIA")]
@@ -277,7 +280,7 @@ def _infeasible_problems(full):
     ps = []
     pads = (0, 1, 3) if full else (0, 2)
     for kind, pad in itertools.product(("startat-endat", "precedence-cycle", "deadline-worker", "unavailable", "unavailable-2",
-                                        "force-n", "buffer", "force-apply", "workload"), pads):
+                                        "force-n", "buffer", "force-apply", "workload", "indicator-bounds"), pads):
         b = PB(4, tag=f"infeasible-{kind}/pad{pad}")
         a = b.task("A", "F", dur=2)
         c = b.task("B", "F", dur=1)
@@ -311,6 +314,11 @@ def _infeasible_problems(full):
             k1 = b.con("TaskStartAt", name="k1", task=a, value=0, optional=True)
             k2 = b.con("TaskStartAt", name="k2", task=c, value=0, optional=True)
             b.con("ForceApplyNOptionalConstraints", name="k3", cons=[k1, k2], n=2, kind="min")
+        elif kind == "indicator-bounds":
+            # the conflict goes through the UPPER bound of an indicator constraint
+            i = b.ind("IndicatorFromMathExpression", name="gap", expr={"op": "start", "task": a})
+            b.con("IndicatorBounds", name="k1", ind=i, lower=[0], upper=[1])
+            b.con("TaskStartAfter", name="k2", task=a, value=2, kind="lax")
         elif kind == "force-n":
             b.con("OptionalTaskForceSchedule", name="k1", task=d, flag=True)
             b.con("TaskStartAt", name="k2", task=d, value=4)
@@ -395,7 +403,7 @@ def run_C19(tier, seed, replay=None, procs=16):
                                 "expr": {"op": "true"}}
         # buffers with their bounds and their load / unload registrations are "basic buffer rules"
         # (the library encodes them in its buffer section, they carry no assertion of their own): they stay
-        q["objs"], q["inds"] = [], []
+        q["objs"] = []   # (indicators are definitions, not constraints: they stay, indicator constraints may refer to them)
         q["tag"] = p["tag"] + "#core"
         subs.append(q)
         owners.append((c, r, names, cfg, text))
